@@ -2235,9 +2235,18 @@ impl VirtualFileSystem for Memfs {
     /// assert_vfs_read_all!(vfs, &file, "foobar 1".to_string());
     /// ```
     fn write_all<T: AsRef<Path>, U: AsRef<[u8]>>(&self, path: T, data: U) -> RvResult<()> {
-        let mut f = self.write(path)?;
-        f.write_all(data.as_ref())?;
-        Ok(())
+        // Create if needed and replace the content under a single guard so that no other thread
+        // can observe the file without its content
+        let mut guard = self.write_guard();
+        let path = self._abs(&guard, path)?;
+        self._add(&mut guard, MemfsEntry::opts(&path).file().build())?;
+        match guard.get_file_mut(&path) {
+            Some(file) => {
+                file.data = data.as_ref().to_vec();
+                Ok(())
+            },
+            None => Err(PathError::does_not_exist(path).into()),
+        }
     }
 
     /// Write the given lines to to the target file including final newline
